@@ -7,6 +7,9 @@
  * The real strings.c is executed on the real (loop) strlen/strchr of env_split.h, cbmc's own
  * malloc/realloc/free; all loops unwound (--unwind 10 with unwinding assertions).
  *
+ * strings.c is included as "../src/strings.c" (= $REPO/include/../src/strings.c, the unannotated file of
+ * the tree under check; B units apply no loop contracts).
+ *
  * Input classes with their own assertion names (so that a known defect of one class cannot hide a
  * regression in another): "mixed quotes" = a quote character of the other kind occurs inside quotes;
  * "trailing backslash" = the input ends in an unescaped backslash; "plain" = neither. */
@@ -135,7 +138,7 @@ mem: 16
 #include "env_split.h"
 #include "split.h"
 #include "ref.h"
-#include "src/strings.c"
+#include "../src/strings.c"
 
 #if V_DELIM_KIND == 0
 # define V_DELIM ((spif_charptr_t) NULL)
